@@ -9,6 +9,9 @@ git -C /repo worktree add --detach "$S" HEAD -q || { echo "MUTANT-TEST $ID: cann
 KEY=$(python3 -c "import hashlib,sys;print(hashlib.sha1(sys.argv[1].encode()).hexdigest()[:10])" "$S")
 cleanup() { git -C /repo worktree remove --force "$S" 2>/dev/null; rm -rf "$S" "/verif/work/h-alt-$KEY" "/verif/work/alt-$KEY"; }
 trap cleanup EXIT
+# hooks that builders have added to /repo's working tree but that are not committed yet (add-only, cfg-guarded) are part
+# of the tree under test: the shared harness may already refer to them
+git -C /repo diff HEAD > "$S.wt.diff"; if [ -s "$S.wt.diff" ]; then (cd "$S" && git apply "$S.wt.diff") || echo "MUTANT-TEST: working-tree hooks did not apply"; fi; rm -f "$S.wt.diff"
 if ! (cd "$S" && (git apply --3way "$PATCH" 2>/dev/null || patch -p1 --no-backup-if-mismatch -s < "$PATCH")); then
   echo "MUTANT-TEST $ID $PATCH: patch does not apply"; exit 3; fi
 if git -C "$S" diff --name-only --diff-filter=U | grep -q .; then echo "MUTANT-TEST $ID $PATCH: merge conflict"; exit 3; fi
